@@ -42,19 +42,38 @@ def oracle(history, G):
     return tp, fp, sw, mota
 
 
-def run(history, G):
+MODES = {"Center Distance": 1.0, "Plane Distance": 1.0, "IoU 2D": 0.3, "IoU 3D": 0.3}      # matching mode -> threshold under which "ok" pairs pass and far ones fail
+
+
+def run(history, G, mode="Center Distance", want_results=False):
     from perception_eval.common.label import AutowareLabel
     from perception_eval.evaluation.matching.object_matching import MatchingMode
     from perception_eval.evaluation.metrics.tracking.clear import CLEAR
     res = [mk_results(f) for f in history]
-    c = CLEAR(res, G, [AutowareLabel.CAR], MatchingMode.CENTERDISTANCE, [1.0])
-    return c
+    c = CLEAR(res, G, [AutowareLabel.CAR], MatchingMode(mode), [MODES[mode]])
+    return (c, res) if want_results else c
+
+
+def expected_score(history, res, mode):
+    """sum over TPs of the matching score IN THIS MODE: of the previous result when the pairing continues (first previous TP sharing both tracks), its own otherwise"""
+    from perception_eval.evaluation.matching.object_matching import MatchingMode
+    total = 0.0
+    for t in range(1, len(history)):
+        ptp = [(p, r) for p, r in zip(history[t - 1], res[t - 1]) if p[2] is not None and p[3]]
+        for (eid, lab, gid, ok), r in zip(history[t], res[t]):
+            same = [pr for p, pr in ptp if gid is not None and p[0] == eid and p[1] == lab and p[2] == gid]
+            if same:
+                total += same[0].get_matching(MatchingMode(mode)).value
+            elif gid is not None and ok:
+                total += r.get_matching(MatchingMode(mode)).value
+    return total
 
 
 def check(case):
     history, G = [[tuple(x) for x in f] for f in case["history"]], case["G"]
+    mode = case.get("mode", "Center Distance")
     try:
-        c = run(history, G)
+        c, res = run(history, G, mode, want_results=True)
     except Exception as ex:
         return f"CLEAR raised {type(ex).__name__}: {ex}"
     tp, fp, sw, mota = oracle(history, G)
@@ -67,10 +86,13 @@ def check(case):
         return f"MOTA {c.mota} != max(0, (TP - FP - IDsw)/G) = {mota}"
     if c.tp > 0 and abs(c.motp - c.tp_matching_score / c.tp) > 1e-9:
         return "MOTP is not the mean matching score over TPs"
+    want_score = expected_score(history, res, mode)
+    if abs(c.tp_matching_score - want_score) > 1e-9:
+        return f"the TPs' matching scores ({mode}) add up to {want_score}, CLEAR accumulated {c.tp_matching_score}"
     # consistent renaming of track ids leaves the scores unchanged
     ren = lambda s: None if s is None else "r" + s[::-1]
     h2 = [[(ren(e), lab, ren(g), ok) for (e, lab, g, ok) in f] for f in history]
-    c2 = run(h2, G)
+    c2 = run(h2, G, mode)
     if (c2.tp, c2.fp, c2.id_switch) != (c.tp, c.fp, c.id_switch):
         return f"renaming track ids changed the counts: {(c.tp, c.fp, c.id_switch)} -> {(c2.tp, c2.fp, c2.id_switch)}"
     return None
@@ -104,7 +126,7 @@ def search(item, seed):
                 g = rnd.choice([gs[i], gs[i], None])
                 frame.append((e, rnd.choice(["car", "car", "car"]), g, rnd.random() < 0.75))
             hist.append(frame)
-        case = dict(history=hist, G=rnd.randint(0, 8))
+        case = dict(history=hist, G=rnd.randint(0, 8), mode=rnd.choice(list(MODES)))
         why = check(case)
         if why:
             return dict(function="CLEAR", input=case, observed=why)
